@@ -29,6 +29,9 @@ type Network struct {
 	// ChunkOptions returns the candidate sizes of a Read that could return up to avail bytes
 	// (first entry = default). nil: everything available.
 	ChunkOptions func(c *VConn, avail int) []int
+	// Stalled, if set, says that what was written towards this end is still in flight (network latency): Read blocks although
+	// bytes (or the end of the stream) are on their way, until the harness lets them arrive. Deadlines and a local Close still apply.
+	Stalled func(c *VConn) bool
 	// Refuse decides whether the n-th dial (0-based) to addr is refused.
 	Refuse func(addr string, n int) bool
 	// CutAt: a connection (identified by the 0-based index of the dial to addr that created it)
@@ -182,8 +185,14 @@ func (c *VConn) Read(b []byte) (int, error) {
 		vrt.AddTimer(c.rdl-vrt.Now(), "read-deadline", func() {})
 	}
 	vrt.Block(vrt.KNet, uintptr(unsafe.Pointer(c)), "Conn.Read", func() bool {
+		if f := netw().Stalled; f != nil && f(c) {
+			return c.closed || deadlineHit()
+		}
 		return len(c.buf) > 0 || c.closed || c.eof || c.broken || deadlineHit()
 	})
+	if f := netw().Stalled; f != nil && f(c) && !c.closed {
+		return 0, &orig.OpError{Op: "read", Net: "tcp", Err: timeoutError{}}
+	}
 	switch {
 	case c.closed:
 		return 0, errClosed
